@@ -44,9 +44,9 @@ func bigBalances(c *Case, r *rand.Rand) map[string]map[string]*big.Int {
 		out[a] = map[string]*big.Int{}
 		for as, v := range m {
 			x := big.NewInt(v)
-			if r.Intn(6) == 0 { // amounts beyond 2^64
+			if r.Intn(3) == 0 { // amounts beyond 2^64
 				x.Mul(x, new(big.Int).Lsh(big.NewInt(1), 70))
-				if r.Intn(2) == 0 && x.Sign() != 0 {
+				if r.Intn(4) != 0 && x.Sign() != 0 {
 					// ... and not a round binary number: every one of its digits matters (a send-all moves exactly this)
 					x.Add(x, big.NewInt(int64(1+r.Intn(999))))
 				}
@@ -211,7 +211,7 @@ func cmdCliCheck(args []string) {
 			// warnings only (portions that already add up to one next to `remaining`; an unused variable): not errors
 			c.Text = c.Text + "\nsend [USD 10] (\n source = @world\n destination = { 1/2 to @wa 1/2 to @wb remaining to @wc }\n)"
 		}
-		if r.Intn(10) == 0 {
+		if r.Intn(4) == 0 {
 			// everything an account holds, whatever its size
 			c.Text = c.Text + "\nsend [USD *] (\n source = @a\n destination = @sweep\n)"
 		}
